@@ -113,9 +113,9 @@ func plan(seed int64, tier string) []vrt.Case {
 	for _, cl := range regressClasses {
 		cs = append(cs, vrt.Case{ID: "regress-" + cl, Params: vrt.MustParams(params{Kind: "regress", Class: cl, Seed: seed}), TimeoutS: 300})
 	}
-	n, per := 640, 8
+	n, per := 1600, 16
 	if tier == "thorough" {
-		n, per = 8000, 16
+		n, per = 24000, 60
 	}
 	for lo := 0; lo < n; lo += per {
 		cs = append(cs, vrt.Case{ID: fmt.Sprintf("prng-%d-%d", lo, lo+per), Params: vrt.MustParams(params{Kind: "prng", Seed: seed, Lo: lo, Hi: lo + per}), TimeoutS: 600})
